@@ -129,6 +129,20 @@ def processing_order(F, R):
     R.ob('FLOW', 'FLOW::%s::deadline-vs-tick-by-map-presence' % fnkey(hdl), len(cl) == 1 and bool(cl[0].calls(r'::get$')), 'deadline(..) vs tick(..) is chosen by presence in deadline_to_attachment', cl[0].file + ':%s' % cl[0].line if cl else hdl.file, hdl)
     md = hdl.calls(r'DeadlineQueue::missed_deadlines$')
     R.ob('FLOW', 'FLOW::%s::ids-from-missed_deadlines' % fnkey(hdl), len(md) == 1, 'deadline indices are delivered by DeadlineQueue::missed_deadlines only', md[0].where if md else hdl.file, hdl)
+    # the deadline queue evaluates expiry against ONE clock reading and remembers exactly that reading as `previous_iteration`:
+    # a later reading (after the callbacks ran) silently skips every period boundary that fell in between
+    nq = 0
+    for q in F.find_fns(r'^iceoryx2_bb_posix::deadline_queue::DeadlineQueue::\w+$'):
+        hm = q.calls(r'DeadlineQueue::handle_missed_deadlines$')
+        st = [s_ for s_ in q.sites if s_.i != 'T' and s_.node[0] == 'a' and len(s_.node[1]) > 1 and s_.node[1][-1] == '*' and 'previous_iteration' in q.chain(s_.node[1][:1]) and s_.node[2][0] == 'use']
+        if not hm or not st:
+            continue
+        nq += 1
+        clk = q.calls(r'Time::now(_with_clock)?$')
+        t_eval = sym_nstr(sym(q, hm[0].args[1]))
+        t_store = sym_nstr(sym(q, st[0].node[2][1]))
+        R.ob('SYM-EQ', 'SYM-EQ::%s::previous_iteration=evaluation-time' % fnkey(q), len(clk) == 1 and t_eval == t_store, 'expiry is evaluated at `%s`, previous_iteration := `%s`, %d clock reading(s): the remembered time is the evaluation time (one reading)' % (t_eval[:80], t_store[:80], len(clk)), st[0].where, q)
+    R.floor('DeadlineQueue functions that evaluate and remember the time', nq, 2)
     w = F.find_fns(r'^iceoryx2::waitset::WaitSet::<Service>::wait_and_process_once_with_timeout$')
     if len(w) == 1:
         f = w[0]
